@@ -23,8 +23,8 @@ pub fn def() -> CheckDef {
     CheckDef {
         id: "C12",
         level: "exploration",
-        runs_quick: 150_000,
-        runs_thorough: 3_000_000,
+        runs_quick: 600_000,
+        runs_thorough: 15_000_000,
         rule: "twin runs of the real code with identical histories, one twin using the in-place form of every call and the other the buffer-to-buffer form (block/blocks/script calls, padded and async one-shots, apply_keystream forms, core keystream forms, cts forms) into an output buffer pre-filled with a non-zero pattern derived from the data; same fixed backend width on both. All 12 block-mode types, 8 stream aliases, 8 cores, 6 cts types. distinct = distinct (type, block size, cipher, width, per-op (form pair, size class) sequence); non-trivial = >= 1 byte processed",
         required_probes: &["cts_tail_1", "cts_tail_bs_minus_1", "par_b2b", "padded_b2b", "async_b2b", "stream_b2b", "core_b2b"],
         r#gen,
